@@ -495,8 +495,9 @@ def components(ctx):
                        classify=classify, ldflags=["-lm"]),
         vlib.Component("pf", "h_parsenum.c", SRCS, ["parsenum"], gen_pf, nontrivial=nontrivial_pn,
                        rule="float/double targets: exactly representable values written as hex-float / exact decimal / shifted exponent, arbitrary decimals "
-                            "(rounding), midpoints between adjacent doubles, inf/infinity/nan(...) spellings and prefixes, malformed mantissa/exponent forms, "
-                            "token soup; bounds = +-inf | fixed | value +- {0,1,2} ulp | bound-less form",
+                            "(rounding), midpoints between adjacent doubles, range edges of binary64 and binary32 (tininess threshold 2^emin(1-2^-(p+1)), "
+                            "subnormal midpoints, smallest normal, overflow threshold, each nudged), inf/infinity/nan(...) spellings and prefixes, "
+                            "malformed mantissa/exponent forms, token soup; bounds = +-inf | fixed | value +- {0,1,2} ulp | bound-less form",
                        classify=classify, ldflags=["-lm"]),
         vlib.Component("hs", "h_parsenum.c", SRCS, ["parsenum"], gen_hs,
                        nontrivial=lambda c: sum(1 for o in c if o.startswith("hs_parse") and len(o.split()[1]) >= 4) >= 2,
@@ -515,6 +516,8 @@ def check(ctx):
                      "for signed targets the caller's bounds lie within the target type (left to the caller by the interface); "
                      "outside that contract the answer is compared at L2 only",
                      "libc strtoimax/strtoumax/strtod/isspace behave as ISO C 2011 says in the C locale (modelled; compared on every run)",
-                     "floating point: accept/reject and range logic are proved over the strtod model; correct rounding of the model is tied by L1 only"],
+                     "floating point: the strtod model is proved to be correctly rounding (IEEE 754 roundTiesToEven, gradual underflow, ERANGE on overflow "
+                     "or tiny-after-rounding-and-inexact) against Spec/Ieee.lean; that the real libc's strtod is correctly rounding is observed at L1 "
+                     "(glibc < 2.41 is not, for subnormal results with exactly 54 significant bits: glibc bug 30220; generators avoid those)"],
         trusted=["pmodel (compiled Lean model)", "harness/h_parsenum.c", "tools/extractors/c16.py",
                  "libc strto*/strtod/asprintf (modelled)", "gcc ASan/UBSan"])
